@@ -1,24 +1,24 @@
 #!/bin/bash
 # usage: tools/seedcheck.sh <patch.diff> [property ids...]
-# Applies a seeded change to /repo (git apply), runs the quick checks (all 20 by default) with evidence written to a
-# scratch directory, prints which checks raise a VIOLATION, and restores /repo (git checkout + removal of added files).
+# Applies a seeded change to a scratch copy of /repo (so that /repo itself is never disturbed), runs the quick checks
+# (all 20 by default) against that copy with evidence written to a scratch directory, and prints which checks raise a
+# VIOLATION. (Equivalent to `git -C /repo apply <patch>; run checks; git -C /repo checkout -- .`.)
 set -u
 patch="$1"; shift
 props="${*:-C01 C02 C03 C04 C05 C06 C07 C08 C09 C10 C11 C12 C13 C14 C15 C16 C17 C18 C19 C20}"
 cd /verif
-if ! git -C /repo diff --quiet; then echo "/repo has uncommitted changes"; exit 2; fi
-git -C /repo apply "$patch" || { echo "patch does not apply"; exit 2; }
 scratch=$(mktemp -d /tmp/seedcheck.XXXX)
+cp -r /repo "$scratch/repo"; rm -rf "$scratch/repo/.git" "$scratch/repo/bin"
+( cd "$scratch/repo" && patch -p1 -s -i "$patch" ) || { echo "patch does not apply"; rm -rf "$scratch"; exit 2; }
 mkdir -p "$scratch/evidence"; cp known_findings.json "$scratch/"
 . ./env.sh
 caught=""
 for p in $props; do
-  out=$(VERIF_DIR="$scratch" ./bin/pcheck "$p" quick 2>&1)
+  out=$(VERIF_REPO="$scratch/repo" VERIF_DIR="$scratch" ./bin/pcheck "$p" quick 2>&1)
   if echo "$out" | grep -q "^VIOLATION"; then
     caught="$caught $p"
     echo "== $p"; echo "$out" | grep -A2 "^violated\|^undecided\|^machinery" | cut -c1-400 | head -12
   fi
 done
-git -C /repo checkout -- . ; git -C /repo clean -fdq
 rm -rf "$scratch"
 echo "CAUGHT BY:${caught:- none}"
